@@ -48,6 +48,7 @@ func Plan(g *Gen, blobOnly bool) []Input {
 	for i := 0; i < n/8; i++ {
 		inputs = append(inputs, g.Tar())
 	}
+	inputs = append(inputs, Input{Class: "arith:consts", Kind: "arith", Op: "consts"})
 	for i := 0; i < verifutil.EnvInt("VERIF_N_ARITH", n); i++ {
 		inputs = append(inputs, g.ArithOp())
 	}
